@@ -230,3 +230,30 @@ Proof. vm_compute. repeat split; reflexivity. Qed.
 Print Assumptions C13_translated_readFullAt_complete_or_error.
 Print Assumptions C13_translated_readFullAt_short_read_is_never_a_success.
 Print Assumptions C13_translated_readUint64Le_value_or_error.
+
+(* ReadAllFromReaderAt (epoch.go) — the exact-size read with which NewEpochFromConfig loads the block-time table from any
+   index storage — translated likewise: over EVERY reader (any count, any error value) a buffer comes back only for a
+   complete read without error and then holds exactly the bytes read; every short read and every error is an error *)
+Require YF.GoLiteRd_ReadAll.
+Theorem C13_translated_ReadAllFromReaderAt_complete_or_error :
+  forall (rd : Z -> Z -> list Z * GoLite.val), (forall off len, GoLiteRd_ReadFull.is_err (snd (rd off len))) ->
+  (forall off len, (0 <= len)%Z -> (GoLite.zlen (fst (rd off len)) <= len)%Z) ->
+  forall fuel rdv (size : Z) out, (0 <= size < 4611686018427387904)%Z ->
+  GoLite.call GoLiteRdMain.prog (GoLiteRd_ReadFull.ext_ra rd) fuel "ReadAllFromReaderAt"%string [rdv; GoLite.VInt size]
+    = GoLite.RRet (GoLite.VTuple [GoLite.VInts out; GoLite.VNil]) ->
+  snd (rd 0%Z size) = GoLite.VNil /\ GoLite.zlen (fst (rd 0%Z size)) = size /\ out = fst (rd 0%Z size).
+Proof. exact (GoLiteRd_ReadAll.ReadAll_success GoLiteRdMain.prog GoLiteRdMain.prog_ReadAllFromReaderAt). Qed.
+
+Example C13_translated_ReadAllFromReaderAt_runs :
+  let full := fun (_ _ : Z) => ([1; 2; 3]%Z, GoLite.VNil) in
+  let short := fun (_ _ : Z) => ([1; 2]%Z, GoLite.VNil) in
+  let eof := fun (_ _ : Z) => ([1; 2]%Z, GoLite.VErr "io.EOF"%string) in
+  GoLite.call GoLiteRdMain.prog (GoLiteRd_ReadFull.ext_ra full) 0 "ReadAllFromReaderAt"%string [GoLite.VNil; GoLite.VInt 3%Z]
+    = GoLite.RRet (GoLite.VTuple [GoLite.VInts [1; 2; 3]%Z; GoLite.VNil]) /\
+  GoLite.call GoLiteRdMain.prog (GoLiteRd_ReadFull.ext_ra short) 0 "ReadAllFromReaderAt"%string [GoLite.VNil; GoLite.VInt 3%Z]
+    = GoLite.RRet (GoLite.VTuple [GoLite.VInts []; GoLite.VErr "fmt.Errorf"%string]) /\
+  GoLite.call GoLiteRdMain.prog (GoLiteRd_ReadFull.ext_ra eof) 0 "ReadAllFromReaderAt"%string [GoLite.VNil; GoLite.VInt 3%Z]
+    = GoLite.RRet (GoLite.VTuple [GoLite.VInts []; GoLite.VErr "%w io.EOF"%string]).
+Proof. vm_compute. repeat split; reflexivity. Qed.
+
+Print Assumptions C13_translated_ReadAllFromReaderAt_complete_or_error.
